@@ -426,7 +426,23 @@ class Interp(object):
         ext = [b for b in self.external_bases(cls) if not isinstance(b, ExcClass)]
         nt = None
         if ext:
-            if len(ext) == 1 and isinstance(ext[0], type) and issubclass(ext[0], tuple) and hasattr(ext[0], '_fields') \
+            import typing as _typing
+            if len(ext) == 1 and ext[0] is _typing.NamedTuple and cls.lookup('__init__') is None and cls.lookup('__new__') is None:
+                # class X(typing.NamedTuple): the annotated names of the class body are the fields, their values the defaults
+                nt = getattr(cls, '_typed_record', None)
+                if nt is None:
+                    import collections as _collections
+                    names, defaults = [], []
+                    for st in cls.node.body:
+                        if isinstance(st, ast.AnnAssign) and isinstance(st.target, ast.Name):
+                            if st.value is not None:
+                                defaults.append(self.eval(st.value, Frame(cls.module)))
+                            elif defaults:
+                                raise InterpTypeError('Non-default namedtuple field %s cannot follow default fields' % st.target.id)
+                            names.append(st.target.id)
+                    nt = _collections.namedtuple(cls.name, names, defaults=defaults or None)
+                    cls._typed_record = nt
+            elif len(ext) == 1 and isinstance(ext[0], type) and issubclass(ext[0], tuple) and hasattr(ext[0], '_fields') \
                     and cls.lookup('__init__') is None and cls.lookup('__new__') is None:
                 nt = ext[0]           # class X(namedtuple(..)): a record with methods
             else:
@@ -798,6 +814,9 @@ class Interp(object):
         if clo.defaults is None:
             # (module level functions and methods: evaluated at the first call; module globals do not change under them)
             dfr = Frame(clo.module, parent=clo.parent_frame)
+            if clo.owner is not None and clo.parent_frame is None and hasattr(clo.node, 'lineno'):
+                # defaults of a method are evaluated in the class body: they see the class level names bound before the def
+                dfr.env = _ClassBodyEnv(self, clo.owner, clo.node)
             clo.defaults = ([self.eval(d, dfr) for d in a.defaults],
                             [self.eval(d, dfr) if d is not None else _NODEFAULT for d in a.kw_defaults])
         defaults, kw_defaults = clo.defaults
